@@ -54,6 +54,31 @@ func RaceMain(args []string) int {
 		}
 	}
 	for it := 0; it < iters; it++ {
+		// fresh values and method names that this process has never seen, met for the first
+		// time by three goroutines at once (a cache filled on first sight is written
+		// concurrently only then); the results are compared with a run alone AFTERWARDS
+		{
+			fa, fb, fc := ops(1000+3*it), ops(1001+3*it), ops(1002+3*it)
+			for ii := 0; ii < 2*len(fa); ii++ {
+				// the same operation on three goroutines, then three different ones
+				i := ii % len(fa)
+				j, k := i, i
+				if ii >= len(fa) {
+					j, k = (i+5)%len(fb), (i+9)%len(fc)
+				}
+				var wg sync.WaitGroup
+				var r1, r2, r3 string
+				wg.Add(3)
+				go func() { defer wg.Done(); r1 = fa[i].run() }()
+				go func() { defer wg.Done(); r2 = fb[j].run() }()
+				go func() { defer wg.Done(); r3 = fc[k].run() }()
+				wg.Wait()
+				runs++
+				report("fresh:"+fa[i].name, r1, fa[i].run())
+				report("fresh:"+fb[j].name, r2, fb[j].run())
+				report("fresh:"+fc[k].name, r3, fc[k].run())
+			}
+		}
 		// every unordered pair on two goroutines, a third goroutine running a rotating op
 		for i := range a {
 			for j := i; j < len(b); j++ {
@@ -234,6 +259,21 @@ func raceFinish(s *ev.S, m *ev.Result) {
 				m.ViolCount[sig]++
 				m.Violations = append(m.Violations, ev.Violation{Sig: sig, Detail: "free-running pass: " + l, Replay: map[string]string{"cmd": "vrace " + iters}})
 			}
+		}
+	}
+	if i := strings.Index(text, "fatal error:"); i >= 0 {
+		line := text[i:]
+		if j := strings.Index(line, "\n"); j >= 0 {
+			line = line[:j]
+		}
+		sig := "free-running-fatal:" + strings.TrimSpace(strings.TrimPrefix(line, "fatal error:"))
+		if !seen[sig] {
+			seen[sig] = true
+			if m.ViolCount == nil {
+				m.ViolCount = map[string]int64{}
+			}
+			m.ViolCount[sig]++
+			m.Violations = append(m.Violations, ev.Violation{Sig: sig, Detail: "the free-running pass died: " + clip(strings.Join(strings.Fields(text[i:]), " "), 700), Replay: map[string]string{"cmd": "vrace " + iters}})
 		}
 	}
 	if err != nil && len(seen) == 0 {
